@@ -203,6 +203,51 @@ func c17Round5(ctx *core.Ctx) {
 	if n == 0 {
 		ctx.OK("DL9", "testscript#no-cmd-timers", token.NoPos, "no store to Cmd.WaitDelay or Cmd.Cancel in package testscript")
 	}
+	// DL10: once the command runs, the watcher is the next thing that happens
+	ctx.Rule("DL10", "nothing between start and watch: in the foreground exec no call lies between the successful Cmd.Start and waitOrStop (a synchronous write of the script's stdin into a pipe there blocks for ever on a command that does not read, and the deadline is never enforced)", 1)
+	if ex := p.Func("testscript", "(*TestScript).exec"); ex != nil {
+		g := graph(p, ex)
+		starts := g.Calls("(*os/exec.Cmd).Start")
+		k := 0
+		for _, st := range starts {
+			k++
+			var culprit ssa.Instruction
+			var watch []*ssa.Call
+			g.Instrs(func(i ssa.Instruction) {
+				if c, ok := i.(*ssa.Call); ok && strings.HasSuffix(ssax.CalleeName(&c.Call), ".waitOrStop") {
+					watch = append(watch, c)
+				}
+			})
+			g.Instrs(func(i ssa.Instruction) {
+				c, ok := i.(*ssa.Call)
+				if !ok || culprit != nil || strings.HasSuffix(ssax.CalleeName(&c.Call), ".waitOrStop") {
+					return
+				}
+				if _, isB := c.Call.Value.(*ssa.Builtin); isB {
+					return
+				}
+				// only what happens where Start is known to have succeeded
+				if !g.Dominates(st, c) || !ssax.KnownNil(g.FactsAtInstr(c), st, true) {
+					return
+				}
+				for _, w := range watch {
+					if g.Dominates(w, c) {
+						return
+					}
+				}
+				culprit = c
+			})
+			var hit ssa.Instruction = culprit
+			where := ""
+			if culprit != nil {
+				where = "found " + culprit.String()
+			}
+			ctx.Check(hit == nil, "DL10", "testscript.exec#start-then-watch"+itoa(k), st.Pos(), "after a successful Start the next call is waitOrStop %s", where)
+		}
+		if k == 0 {
+			ctx.Note("DL10", "testscript.exec#start-then-watch", ex.Pos(), "exec does not start a command")
+		}
+	}
 }
 
 // c19Round5: the _test suffix is looked through before anything is read as GOOS or GOARCH.
@@ -246,5 +291,65 @@ func c19Round5(ctx *core.Ctx) {
 	})
 	if n == 0 {
 		ctx.Unknown("B10", "imports.MatchFile#lookups", mf.Pos(), "MatchFile does not consult the known-name tables")
+	}
+}
+
+// fixNLShape (round 6): the final-newline fix leaves empty data empty.
+func fixNLShape(ctx *core.Ctx, rule string) {
+	p := ctx.P
+	ctx.Rule(rule, "an empty chunk stays empty: txtar's final-newline fix returns something other than its argument only for data known to be non-empty (a newline added to nothing turns a trailing empty file into a one-byte file, and an empty input into a one-line comment)", 1)
+	f := p.Func("txtar", "fixNL")
+	if f == nil || len(f.Params) != 1 {
+		ctx.Note(rule, "txtar.fixNL", token.NoPos, "no fixNL function; clause not decided")
+		return
+	}
+	g := graph(p, f)
+	prm := f.Params[0]
+	n := 0
+	for _, r := range g.Returns() {
+		rv := ssax.ReturnValues(r)[0]
+		if rv == ssa.Value(prm) {
+			continue
+		}
+		n++
+		facts := g.FactsAtInstr(r)
+		nonEmpty := cmpFact(facts, token.NEQ, isLenOf(prm), isConstIntV(0)) || cmpFact(facts, token.GTR, isLenOf(prm), isConstIntV(0)) || cmpFact(facts, token.GEQ, isLenOf(prm), isConstIntV(1))
+		ctx.Check(nonEmpty, rule, "txtar.fixNL#changed-return"+itoa(n), r.Pos(), "a changed copy is returned only for non-empty data")
+	}
+	if n == 0 {
+		ctx.Note(rule, "txtar.fixNL#changed-return", f.Pos(), "fixNL never returns anything but its argument")
+	}
+}
+
+// mkAbsShape (round 6): MkAbs yields the argument itself (absolute) or filepath.Join(cd, argument) - a
+// cleaned path, which is what the archive-entry table is keyed by.
+func mkAbsShape(ctx *core.Ctx, rule string) {
+	p := ctx.P
+	ctx.Rule(rule, "MkAbs returns clean paths: every return of MkAbs is its argument (found absolute) or filepath.Join(TestScript.cd, argument); a concatenation 'when there is nothing to clean' keeps './x' and 'a//b' as written, and the look-up of archive entries by path (which decides whether cmp may update a file) misses", 1)
+	f := p.Func("testscript", "(*TestScript).MkAbs")
+	if f == nil || len(f.Params) < 2 {
+		ctx.Unknown(rule, "testscript.MkAbs", token.NoPos, "MkAbs not found")
+		return
+	}
+	g := graph(p, f)
+	n := 0
+	for _, r := range g.Returns() {
+		n++
+		ok := true
+		for _, v := range g.ResolveAll(ssax.ReturnValues(r)[0], r) {
+			if v == ssa.Value(f.Params[1]) {
+				continue
+			}
+			c, isC := v.(*ssa.Call)
+			if !isC || ssax.CalleeName(&c.Call) != "path/filepath.Join" {
+				ok = false
+				continue
+			}
+			el := variadicElems(c.Call.Args[0])
+			if len(el) != 2 || !isFieldLoad("cd")(el[0]) || el[1] != ssa.Value(f.Params[1]) {
+				ok = false
+			}
+		}
+		ctx.Check(ok, rule, "testscript.MkAbs#return"+itoa(n), r.Pos(), "the result is the argument or filepath.Join(cd, argument)")
 	}
 }
